@@ -9,6 +9,9 @@
  *   hash <hex> <len>                        lyht_hash      -> ok <hash>
  *   getop <hex> <pos>                       lysc_iff_getop -> ok <op>
  *   setop <hex> <op> <pos>                  iff_setop      -> ok <hex>
+ *   fixedsize <n>                           lyht_get_fixed_size -> ok <n>
+ *   grow <used> <size> <resize> / shrink <used> <size>   slices of the insert / remove load-factor tests (fn_slices_FnHt.h)
+ *   lybmask <hash> <cid> / extlen <cid> <len>            slices of lyb_generate_hash (fn_slices_FnLyb.h)
  * Buffers are exact-size heap blocks (the hex bytes + one NUL for the `char *` inputs), so a read or store outside what
  * the model calls the buffer is an AddressSanitizer abort, i.e. a recorded failure.
  * Statics are reached by including the source files; this TU is linked before libyang.a. */
@@ -16,7 +19,10 @@
 #include "ly_common.c"
 #include "hash_table.c"
 #include "schema_features.c"
+#include "lyb.h"
 #include "proto.h"
+#include "fn_slices_FnHt.h"
+#include "fn_slices_FnLyb.h"
 
 static char *
 exact(const char *hex, size_t *n, int nul)
@@ -82,6 +88,18 @@ main(void)
             char *s = exact(r.tok[3], &n, 0);
             iff_setop((uint8_t *)s, strtoul(r.tok[4], NULL, 10), strtoull(r.tok[5], NULL, 10));
             vp_begin(id, "ok"); vp_field_hex(s, n); vp_end(); free(s);
+        } else if (!strcmp(op, "fixedsize") && r.ntok == 4) {
+            vp_begin(id, "ok"); vp_field_u(lyht_get_fixed_size(strtoul(r.tok[3], NULL, 10))); vp_end();
+        } else if (!strcmp(op, "grow") && r.ntok == 6) {
+            uint16_t rs = strtoul(r.tok[5], NULL, 10);
+            int g = lyht_insert__grow(strtoul(r.tok[3], NULL, 10), strtoul(r.tok[4], NULL, 10), &rs);
+            vp_begin(id, "ok"); vp_field_u(g); vp_field_u(rs); vp_end();
+        } else if (!strcmp(op, "shrink") && r.ntok == 5) {
+            vp_begin(id, "ok"); vp_field_u(lyht_remove__shrink(strtoul(r.tok[3], NULL, 10), strtoul(r.tok[4], NULL, 10))); vp_end();
+        } else if (!strcmp(op, "lybmask") && r.ntok == 5) {
+            vp_begin(id, "ok"); vp_field_u(lyb_generate_hash__mask(strtoul(r.tok[3], NULL, 10), strtoul(r.tok[4], NULL, 10))); vp_end();
+        } else if (!strcmp(op, "extlen") && r.ntok == 5) {
+            vp_begin(id, "ok"); vp_field_u(lyb_generate_hash__extlen(strtoul(r.tok[3], NULL, 10), strtoull(r.tok[4], NULL, 10))); vp_end();
         } else {
             vp_reply(id, "err BadOp");
         }
